@@ -27,14 +27,13 @@ PRESCRIBED = prescribed()
 
 def size_thm(t, v):
     lo, hi = PRESCRIBED[(t, v)]
-    # the two ILS templates leak one population per pass: no invariant exists, the (incomplete) analysis answers false
-    val = "false" if "ils" in t else "true"
+    val = "true"
     return f"theorem {t}_v{v}_size : sizeWithin {t}_v{v} {lo} {'none' if hi is None else f'(some {hi})'} = {val} := by decide"
 
 
 FILES = {
     "C16Size.lean": ("MahfModel.Props.C16.Size", size_thm),
-    "C16.lean": ("MahfModel.Props.C16", lambda t, v: f"theorem {t}_v{v}_balanced : balanced {t}_v{v} = {'false' if 'ils' in t else 'true'} := by decide"),
+    "C16.lean": ("MahfModel.Props.C16", lambda t, v: f"theorem {t}_v{v}_balanced : balanced {t}_v{v} = true := by decide"),
     "C06Templates.lean": ("MahfModel.Props.C06.Templates", lambda t, v: f"theorem {t}_v{v}_counter_exact : counterExactTop {t}_v{v} = {'false' if 'ils' in t else 'true'} := by decide"),
     "C07Templates.lean": ("MahfModel.Props.C07.Templates", lambda t, v: f"theorem {t}_v{v}_etu : evalThenUpdate {t}_v{v} = {'false' if ('ils' in t or t == 'real_fa') else 'true'} := by decide"),
 }
